@@ -136,9 +136,15 @@ func Applicable(kind NodeKind, isProp bool, rules []RuleAtom) (accept, judged bo
 		}
 		return true, true, "enum with optional/nullable/const/type enum"
 	}
-	if has(rules, "or") != nil {
+	if o := has(rules, "or"); o != nil {
 		if isObject || isArray {
 			return false, false, "or on a container: no clause"
+		}
+		if o.Variant == "disordered-set" {
+			return false, true, "paired bounds out of order inside an or rule set"
+		}
+		if o.Variant == "ordered-set" {
+			return false, false, "or rule set without a type: no clause on its kind"
 		}
 		if typ != "" {
 			return false, false, "or with a type rule: no clause"
